@@ -36,6 +36,18 @@ use garde::Validate;
 #[cfg(feature = "validator")]
 use validator::Validate as ValidatorValidate;
 
+/// A document that the multi-document entry points skip: an empty / null-like plain scalar.
+/// A scalar that is a string by its tag (`!!str null`, `!!str ~`) or a `!!binary` payload is a
+/// value, as it is for the single-document entry points.
+fn is_null_document(
+    value: &str,
+    style: &saphyr_parser::ScalarStyle,
+    tag: &crate::tags::SfTag,
+) -> bool {
+    !matches!(tag, crate::tags::SfTag::String | crate::tags::SfTag::Binary)
+        && scalar_is_nullish(value, style)
+}
+
 mod anchor_store;
 mod anchors;
 mod base64;
@@ -572,8 +584,11 @@ where
         match src.peek()? {
             // Skip documents that are explicit null-like scalars ("", "~", or "null").
             Some(Ev::Scalar {
-                value: s, style, ..
-            }) if scalar_is_nullish(s, style) => {
+                value: s,
+                style,
+                tag,
+                ..
+            }) if is_null_document(s, style, tag) => {
                 let _ = src.next()?; // consume the null scalar document
                 continue;
             }
@@ -804,9 +819,9 @@ where
             }
             loop {
                 match self.src.peek() {
-                    Ok(Some(Ev::Scalar { value, style, .. }))
-                        if scalar_is_nullish(value, style) =>
-                    {
+                    Ok(Some(Ev::Scalar {
+                        value, style, tag, ..
+                    })) if is_null_document(value, style, tag) => {
                         if let Err(e) = self.src.next() {
                             // a deferred I/O error surfaced while skipping an empty document
                             self.finished = true;
@@ -961,8 +976,11 @@ where
         match src.peek()? {
             // Skip documents that are explicit null-like scalars ("", "~", or "null").
             Some(Ev::Scalar {
-                value: s, style, ..
-            }) if scalar_is_nullish(s, style) => {
+                value: s,
+                style,
+                tag,
+                ..
+            }) if is_null_document(s, style, tag) => {
                 let _ = src.next()?; // consume the null scalar document
                 continue;
             }
@@ -1183,9 +1201,9 @@ where
             }
             loop {
                 match self.src.peek() {
-                    Ok(Some(Ev::Scalar { value, style, .. }))
-                        if scalar_is_nullish(value, style) =>
-                    {
+                    Ok(Some(Ev::Scalar {
+                        value, style, tag, ..
+                    })) if is_null_document(value, style, tag) => {
                         if let Err(e) = self.src.next() {
                             // a deferred I/O error surfaced while skipping an empty document
                             self.finished = true;
@@ -1374,8 +1392,11 @@ pub fn from_multiple_with_options<T: DeserializeOwned>(
         match src.peek()? {
             // Skip documents that are explicit null-like scalars ("", "~", or "null").
             Some(Ev::Scalar {
-                value: s, style, ..
-            }) if scalar_is_nullish(s, style) => {
+                value: s,
+                style,
+                tag,
+                ..
+            }) if is_null_document(s, style, tag) => {
                 let _ = src.next()?; // consume the null scalar document
                 // Do not push anything for this document; move to the next one.
                 continue;
@@ -1929,9 +1950,9 @@ where
             }
             loop {
                 match self.src.peek() {
-                    Ok(Some(Ev::Scalar { value, style, .. }))
-                        if scalar_is_nullish(value, style) =>
-                    {
+                    Ok(Some(Ev::Scalar {
+                        value, style, tag, ..
+                    })) if is_null_document(value, style, tag) => {
                         if let Err(e) = self.src.next() {
                             // a deferred I/O error surfaced while skipping an empty document
                             self.finished = true;
